@@ -226,7 +226,7 @@ def gen_rpc(rng, tcp, fault=None, shadow_ok=False):
     prog = rng.choice([100000, 100000, 100000, 100003, 99840, 100095, 100000 + rng.below(95)])
     ver = rng.choice([2, 3, 4, 2, 3, 4, 0, 1, 5, 104316, rng.below(1 << 32)])
     proc = rng.choice([0, 3, 4, 3, 4, 1, 2, 5, 255, rng.below(256)])
-    credlen = rng.choice([0, 0, 4, 8, 20, rng.below(40)])
+    credlen = rng.choice([0, 0, 4, 8, 20, rng.below(40), rng.below(40), 396, 400, 400, 404, 408])      # 400 = the RFC 5531 maximum
     verflen = rng.choice([0, 0, 0, 4, 8])
     mtype = 0
     rpcv = rng.choice([2, 2, 2, rng.below(256)])
@@ -333,6 +333,10 @@ def gen_smb2(rng, fault=None):
     h = smb2_header(rng, cmd, flags)
     if kind == 0:
         ds = [rng.choice(SMB2_DIALECTS) for _ in range(1 + rng.below(5))]
+        if rng.chance(1, 3):
+            # a single dialect (each one is the only offer now and then), the same twice, or one between unknown ones
+            d0 = SMB2_DIALECTS[rng.below(len(SMB2_DIALECTS))]
+            ds = rng.choice([[d0], [d0, d0], [0x1234, d0, 0xffff]])
         if rng.chance(1, 3):
             ds.append(ds[rng.below(len(ds))])  # duplicate
         if rng.chance(1, 4):
